@@ -96,6 +96,19 @@ func unhex(in map[string]interface{}, k string) []byte {
 	return b
 }
 func hx(b []byte) string { return hex.EncodeToString(b) }
+
+// retain keeps the byte slice a function under test returned and gives back (as hex) the slice kept by the previous call
+// under the same name AS IT IS NOW: a result handed to the caller must not change when the function is called again
+// ("" for the first call).  The slice itself is kept, not a copy.
+var retained = map[string][]byte{}
+var retainedSeen = map[string]bool{}
+
+func retain(out map[string]interface{}, name string, b []byte) {
+	if retainedSeen[name] {
+		out["prev_now"] = hx(retained[name])
+	}
+	retained[name], retainedSeen[name] = b, true
+}
 func errs(err error) interface{} {
 	if err == nil {
 		return nil
